@@ -129,10 +129,18 @@ CtDesc(cs, prep) == LET t == [k |-> "vector", e |-> NT("int"), d |-> 2, class |-
 \* ... and with one row whose cell is 8 bytes (whatever the named type makes of them)
 CtDescRow(cs) == LET t == [k |-> "vector", e |-> NT("int"), d |-> 2, class |-> cs] IN
   Rows(OneCol(t), <<t>>, << <<[k |-> "seq", vs |-> <<IV(0, <<1>>), IV(1, <<2>>)>>]>> >>)
+\* a [bytes] value (a row cell, a paging state, ...) made k bytes shorter WITH its length prefix adjusted: the framing stays
+\* self-consistent, only the value's own inner structure (vints, element lengths, fixed widths) comes up short
+CellCut(segs, i, k) == LET b == segs[i + 1].b IN
+  Reframe([segs EXCEPT ![i].b = Int32(Len(b) - k), ![i + 1].b = SubSeq(b, 1, Len(b) - k)])
+CutSites(segs) == {i \in 1..(Len(segs) - 1) : segs[i].tag = "len32" /\ segs[i + 1].tag = "raw" /\ Len(segs[i + 1].b) >= 1 /\ segs[i].b = Int32(Len(segs[i + 1].b))}
 Repeat(s, n) == IF Len(s) = 0 THEN << >> ELSE [i \in 1..(n * Len(s)) |-> s[((i - 1) % Len(s)) + 1]]
 DeepCt(r) == Repeat(r.pre, r.n) \o r.mid \o Repeat(r.post, r.n)
 VARIABLE c
 Init ==
+  \/ \E d \in {x \in Descs : x.k = "rows"} : LET segs == SFrame(d, Plain) IN \E i \in CutSites(segs) : \E k \in 1..3 :
+        /\ k <= Len(segs[i + 1].b)
+        /\ c = [kind |-> "cellcut", d |-> d, x |-> Plain, comp |-> "none", segs |-> CellCut(segs, i, k), at |-> i, tag |-> "cell"]
   \/ \E i \in 1..Len(CtDeep) : LET d == CtDesc(DeepCt(CtDeep[i]), FALSE) IN c = [kind |-> "ctype", d |-> d, x |-> Plain, comp |-> "none", segs |-> SFrame(d, Plain)]
   \/ \E i \in 1..Len(CtGood) : LET d == CtDescRow(CtGood[i]) IN c = [kind |-> "ctype", d |-> d, x |-> Plain, comp |-> "none", segs |-> SFrame(d, Plain)]
   \/ \E i \in 1..Len(CtBad) : LET d == CtDescRow(CtBad[i]) IN c = [kind |-> "ctype", d |-> d, x |-> Plain, comp |-> "none", segs |-> SFrame(d, Plain)]
